@@ -49,14 +49,14 @@ Proof. intros fits. exact (conj (merge_replies_ok fits) (import_reject_not_acked
 
 (* (c) ReadRepair on, one read that returned w (not interleaved with a write: see C06_rr_race_refuted):
    the owner's own fragment holds a copy with w's timestamp afterwards - w itself unless it already held a
-   copy with that timestamp; so does every reachable backup owner that held a (non expired) copy; a backup
-   owner without any copy is not repaired. *)
+   copy with that timestamp; so does every reachable backup owner that held a copy, expired or not (D48, fixed:
+   an expired copy used to be invisible to the read and was left alone); a backup owner without any copy is
+   not repaired. *)
 Theorem C06_read_repair : forall (RQ : nat) (idle : bool) (now : Z) (nprev nbackups : nat) (reach : holder -> bool)
                                  (c c' : copies) (w : entry),
   cluster_get RQ true idle now nprev nbackups reach c = (Value w, c') ->
   repaired w (c (SPrimary HLocal)) (c' (SPrimary HLocal)) /\
   forall i, (i < nbackups)%nat -> reach (HBackup i) = true ->
-            (forall e, c (SBackupFrag (HBackup i)) = Some e -> is_expired now e = false) ->
             match c (SBackupFrag (HBackup i)) with
             | Some e => repaired w (Some e) (c' (SBackupFrag (HBackup i)))
             | None => c' (SBackupFrag (HBackup i)) = None
@@ -70,8 +70,35 @@ Theorem C06_read_repair_equal : forall (RQ : nat) (idle : bool) (now : Z) (nprev
   (forall s e, c s = Some e -> e_ts e = e_ts w -> e = w) ->
   c' (SPrimary HLocal) = Some w /\
   forall i e, (i < nbackups)%nat -> reach (HBackup i) = true -> c (SBackupFrag (HBackup i)) = Some e ->
-              is_expired now e = false -> c' (SBackupFrag (HBackup i)) = Some w.
+              c' (SBackupFrag (HBackup i)) = Some w.
 Proof. exact read_repair_equal. Qed.
+
+(* (a) at the level of the whole layout: for every layout of copies over the owner, any number of previous owners and
+   backup owners, any subset of them reachable, any timestamps and any deadlines (passed or not): a value the read
+   returns is the copy of a reachable holder, it is not expired, and NO copy of any reachable holder - expired or
+   not - carries a larger timestamp. In particular a newer write whose deadline has passed is never shadowed by an
+   older copy on another member (D48, fixed: a remote holder used to answer not-found for its expired copy, so the
+   owner's older copy won and an overwritten value came back). *)
+Theorem C06_cluster_get_newest : forall (RQ : nat) (rr idle : bool) (now : Z) (nprev nbackups : nat)
+                                        (reach : holder -> bool) (c c' : copies) (w : entry),
+  cluster_get RQ rr idle now nprev nbackups reach c = (Value w, c') ->
+  is_expired now w = false /\
+  (c (lookup_slot HLocal) = Some w \/
+   (exists i, (i < nprev)%nat /\ reach (HPrev i) = true /\ c (lookup_slot (HPrev i)) = Some w) \/
+   (exists i, (i < nbackups)%nat /\ reach (HBackup i) = true /\ c (lookup_slot (HBackup i)) = Some w)) /\
+  (forall e, c (lookup_slot HLocal) = Some e -> (e_ts e <= e_ts w)%Z) /\
+  (forall i e, (i < nprev)%nat -> reach (HPrev i) = true -> c (lookup_slot (HPrev i)) = Some e -> (e_ts e <= e_ts w)%Z) /\
+  (forall i e, (i < nbackups)%nat -> reach (HBackup i) = true -> c (lookup_slot (HBackup i)) = Some e -> (e_ts e <= e_ts w)%Z).
+Proof. exact cluster_get_newest. Qed.
+
+(* the witness of D48 on the model: the owner holds an old copy without deadline, a backup owner the newer write whose
+   deadline has passed: the read reports not-found (the unrepaired code returned the old value) *)
+Example C06_expired_newer_copy_hides_the_older :
+  let old := {| e_val := [111]%N; e_ttl := 0; e_ts := 1 |} in
+  let new := {| e_val := [110]%N; e_ttl := 5; e_ts := 2 |} in
+  let c : copies := fun s => match s with SPrimary HLocal => Some old | SBackupFrag (HBackup 0) => Some new | _ => None end in
+  fst (cluster_get 1 false false 10 0 2 (fun _ => true) c) = ENotFound.
+Proof. reflexivity. Qed.
 
 (* D24 (open): the lookups and the repair of one read are separate steps; if a Delete is acknowledged in between,
    the repair re-inserts the deleted value on the owner. *)
